@@ -469,6 +469,12 @@ func exhaustiveCert(g *gen) {
 		subs = append(subs, s)
 		batch("c16-exh", plainRoot(), subs)
 	case "c19":
+		{
+			// witness of the recorded finding F29 (an arc of 2^31 and more is written but cannot be read back)
+			w := plainSub(0)
+			w.Exts = []Ext{{Kind: "custom", Oid: "1.2.3.4294967296", Raw: "!null", Crit: -1}}
+			batch("c19-f29-witness", plainRoot(), []Cfg{w})
+		}
 		vals := Manip{Outer: "1.2.3.4", SigValue: "!binary:AQIDBA==", Inner: "1.2.3.11", PkAlg: "1.5.1.3", Pk: "!binary:BAECAwQ="}
 		three := int64(3)
 		for _, rootToo := range []bool{false, true} {
